@@ -1,6 +1,7 @@
 use std::convert::TryFrom;
 
 use crate::check::constrain::constraint::builder::ConstrBuilder;
+use crate::check::constrain::constraint::expected::{Expect, Expected};
 use crate::check::constrain::generate::definition::id_from_var;
 use crate::check::constrain::generate::env::Environment;
 use crate::check::constrain::generate::{gen_vec, generate, Constrained};
@@ -18,6 +19,23 @@ pub fn gen_class(
     ctx: &Context,
     constr: &mut ConstrBuilder,
 ) -> Constrained {
+    if let Node::Class { args, .. } = &ast.node {
+        // the default of a class argument is a value of the declared type, as for any definition
+        for arg in args {
+            let (ty, default) = match &arg.node {
+                Node::VariableDef { ty, expr, .. } => (ty, expr),
+                Node::FunArg { ty, default, .. } => (ty, default),
+                _ => continue,
+            };
+            if let (Some(ty), Some(default)) = (ty, default) {
+                generate(default, &env.is_expr(true), ctx, constr)?;
+                let name = Name::try_from(ty)?;
+                let ty_exp = Expected::new(ty.pos, &Expect::Type { name });
+                constr.add("class argument default", &ty_exp, &Expected::from(default), env);
+            }
+        }
+    }
+
     match &ast.node {
         Node::Class {
             body: Some(body),
